@@ -333,37 +333,45 @@ def discover_writers(world_spec, c=0):
         return {"changed": [], "writers": []}
     state = {"last": shared_state_snapshot(), "writers": set(), "prev": None, "frames": {}}
 
-    def sub_snapshot():
+    def _resolve(path):
         import sys as _sys
+        parts = path.split(".")
+        for cut in range(len(parts) - 1, 0, -1):
+            mod = _sys.modules.get(".".join(parts[:cut]))
+            if mod is not None:
+                obj = mod
+                for a in parts[cut:]:
+                    obj = vars(obj)[a] if isinstance(obj, type) else getattr(obj, a)
+                return obj
+        raise KeyError(path)
+
+    def sub_snapshot():
         out = {}
         full = None
         for k in changed:
-            parts = k.split(":")[0].split(".")
-            obj = None
-            ok = False
-            if ":" not in k:
-                for cut in range(len(parts) - 1, 0, -1):
-                    mod = _sys.modules.get(".".join(parts[:cut]))
-                    if mod is not None:
-                        try:
-                            obj = mod
-                            for a in parts[cut:]:
-                                obj = vars(obj)[a] if isinstance(obj, type) else getattr(obj, a)
-                            ok = True
-                        except Exception:
-                            ok = False
-                        break
-            if ok:
-                out[k] = _fingerprint(obj)
-            else:
+            path, _, suffix = k.partition(":")
+            try:
+                obj = _resolve(path)
+                if suffix == "defaults":
+                    f = getattr(obj, "__wrapped__", obj)
+                    f = getattr(f, "__func__", f)
+                    out[k] = _fingerprint((f.__defaults__, f.__kwdefaults__))
+                else:
+                    out[k] = _fingerprint(obj)
+            except Exception:
                 if full is None:
                     full = shared_state_snapshot()
                 out[k] = full.get(k)
         return out
 
+    budget = {"left": 60000}
+
     def watch(cl, loc, frame=None):
         # The state is compared at every line event.  A change seen at a line event of frame F was made by
         # the previous statement of F (line events of nested calls in between are not the writer).
+        if budget["left"] <= 0:
+            return
+        budget["left"] -= 1
         cur = sub_snapshot()
         fid = id(frame) if frame is not None else None
         if cur != state["lastsub"]:
